@@ -75,6 +75,11 @@ theorem TX.execCmd_fst (h : TX fr w) (hnd : ((timeAw w p).filter (· ≠ .time 0
   | timerSet v d sig =>
     simp only [Sim.execCmd]
     exact (h.timersClear p).timerAddVar p v d sig hd hv
+  | timerAddOf q d sig =>
+    simp only [Sim.execCmd]
+    split
+    · exact h
+    · exact h.timerAdd_fst q d sig hd
   | timerCancel v =>
     have hv' : v < 4 := hv
     simp only [Sim.execCmd]
